@@ -668,6 +668,10 @@ pub fn run(rc: &mut RunCtx) {
             v.push(s.clone());
             v.extend(valid_delivery(1, "ct1", 2, &mut r));
             targeted.push(v);
+            // collecting with part of the body already there (1 of 6, 4 of 5, 5 of 6)
+            for (size, first) in [(6u64, 1usize), (5, 4), (6, 5)] {
+                targeted.push(vec![F::Deliver { ch: 1, tag: "ct1".into(), dtag: 1 }, F::Header { ch: 1, size }, F::Body { ch: 1, n: first }, s.clone()]);
+            }
         }
         for size in [1u64 << 31, 1 << 40, 1 << 63, u64::MAX] {
             targeted.push(vec![F::Deliver { ch: 1, tag: "ct1".into(), dtag: 1 }, F::Header { ch: 1, size }]);
@@ -707,6 +711,38 @@ pub fn run(rc: &mut RunCtx) {
             for k in 0..r.usize(1, 3) {
                 seq.extend(valid_delivery(1, "ct1", 50 + k as u64, &mut r));
             }
+        }
+        if i % 4 == 1 {
+            // a valid message with one small mutation
+            let mut v = valid_delivery(1, "ct1", 70, &mut r);
+            let k = r.usize(0, v.len() - 1);
+            match r.below(7) {
+                0 => {
+                    if let F::Body { n, .. } = &mut v[k] {
+                        *n += r.usize(1, 2);
+                    } else if let F::Header { size, .. } = &mut v[k] {
+                        *size = size.saturating_sub(1);
+                    }
+                }
+                1 => {
+                    let d = v[k].clone();
+                    v.insert(k, d);
+                }
+                2 => {
+                    v.remove(k);
+                }
+                3 => {
+                    if v.len() >= 2 {
+                        let j = r.usize(0, v.len() - 2);
+                        v.swap(j, j + 1);
+                    }
+                }
+                4 => v.insert(k, F::Body { ch: 1, n: r.usize(0, 6) }),
+                5 => v.insert(k, F::Deliver { ch: 2, tag: "ct1".into(), dtag: 71 }),
+                _ => v.push(F::Body { ch: 1, n: r.usize(0, 3) }),
+            }
+            seq.extend(v);
+            seq.extend(valid_delivery(1, "ct1", 72, &mut r));
         }
         seq.extend(gen_seq(&mut r, len, i % 3 == 0));
         res.sig = crate::rng::fnv_str(&format!("{:?}", seq));
